@@ -452,6 +452,9 @@ def exhaustive(tier):
         for e in EXPS:
             add(["c2", "^", I, N(e)])
         add(["c2", "^", I, N(0.5)])
+        # exponents that are fractional by less than a double can show: still a fractional power
+        for e in (Fraction(10 ** 17 + 1, 10 ** 17), Fraction(3 * 10 ** 20 - 1, 10 ** 20), 2.0000000000000004, 1.9999999999999998):
+            add(["c2", "^", I, N(e)])
         for bs in BASES:
             add(["c2", "log", I, bs])
     for (a, b) in (ivs_all if tier != "quick" else small):
